@@ -25,6 +25,22 @@ CLAIMS = {
   text="Proof of the accounting ingredients: every superseding write or delete in a table moves exactly the old entry's bytes from inuse to garbage (Put, PutRaw after the fix, Delete), inuse+garbage=offset is invariant, Reset zeroes a table, Stats reports the fields; kvstore.Put/PutRaw delete the superseded version from older tables so that it is accounted as garbage there.",
   note="Compaction progress (evictTable/Compaction/isCompactionOK), makeTable's reuse of recycled tables and the dmap compaction workers are not yet under contract; the global growth bound is not decided by this technique (see DESIGN.md).",
   ref="DESIGN.md §4 C20, §9"),
+ "C05": dict(
+  text="Proof of the quorum decisions, function by function and for all owner lists, answers and configurations: syncPutOnCluster acknowledges a write iff (replica commands delivered and answered without error) + (local copy stored) >= WriteQuorum, returns ErrWriteQuorum otherwise, and an unreachable backup owner alone never fails it (loop invariant over a ghost acknowledgement counter); getOnCluster returns a value only when at least ReadQuorum non-nil copies were gathered and answers ErrReadQuorum when too few answers or too few copies exist; RoutingTable.CheckMemberCountQuorum is exact; Olric.isOperable/preconditionFunc refuse below the member-count quorum; server.Handler.ServeRESP invokes the registered handler iff the command is the routing update, no precondition is set, or the precondition held (and not at all otherwise); Service.NewDMap refuses below the quorum and creates nothing.",
+  note="The network is not modelled: go-redis Process/Err carry assumed contracts (outcome of a command is an unknown function of the command object; ghost net_acks counts delivered-and-acknowledged commands); lookupOnOwners/lookupOnReplicas/readRepair/asyncPutOnCluster/CheckBootstrap are trusted for shape only; handler and precondition function values carry assumed funcfield contracts; concurrency (interleavings of members) is not explored; async replication mode is not decided.",
+  ref="DESIGN.md §4 C05, §9"),
+ "C06": dict(
+  text="Proof: the comparison closure of sortVersions orders by write timestamp, newest first (closure verified against its own contract); sortVersions and sanitizeAndSortVersions return the non-nil copies ordered newest first and no gathered copy is newer than the first one (loop invariants, sort.Slice modelled as a permutation ordered by the closure's contract); getOnCluster returns the newest of all gathered copies and hands read repair exactly that winner (precondition of readRepair).",
+  note="sort.Slice is an assumed model (permutation + ordering by the verified less contract); readRepair's effect on the other members and fragmentMergeFunction/mergeFragments are not yet under contract; what remote members answer is not modelled.",
+  ref="DESIGN.md §4 C06, §9"),
+ "C09": dict(
+  text="Proof over an explicit ghost clock (every time.Now() reads it, monotone): isKeyExpired(ttl) is exactly ttl != 0 && now/1e6 >= ttl; prepareTTL yields the documented expiry for EX/PX/EXAT/PXAT/default timeout/none; checkPutConditions treats a dead key as absent for NX and as missing for XX and Expire; putEntryOnFragment replaces the entry, or with OnlyUpdateTTL changes only expiry and timestamp of an existing key; putOnCluster (single-copy path) stores value and an expiry between ttlFor(clock at call) and ttlFor(clock at return), clears the expiry for a plain Put, keeps the value for Expire, and refuses NX on a live key / XX and Expire on a dead or missing key without changing anything; getOnCluster never returns an entry that was already dead when the call started; the storage engine's GetTTL/UpdateTTL are proved at table and kvstore level.",
+  note="The engine is seen through assumed abstract contracts on storage.Engine (specs/engine.vc; kvstore is verified separately against its own vocabulary, the refinement between the two is argued, not machine-checked); durations are assumed non-negative and below 2^62 ns; setLRUEvictionStats is trusted to only delete keys; GetPut/Incr/Decr (atomic.go), the eviction worker and the replica read path are not yet under contract; wall-clock is the ghost clock (no skew).",
+  ref="DESIGN.md §4 C09, §9"),
+ "C15": dict(
+  text="Proof at the two translation points of the forwarding path: writePutCommand sends an Expire as DM.PEXPIRE and everything else as DM.PUT carrying the NX/XX condition, the first expiry form and the payload; putCommandHandler decodes every option of the parsed command into the PutConfig in every combination (condition together with an expiry form), with exact millisecond conversions.",
+  note="The wire itself (go-redis serialisation, redcon parsing, strconv) is outside the verifier's reach: Put.Command/PExpire.Command are trusted for the command kind; ParsePutCommand's token loop, the cluster client's own writePutCommand, multi-key Delete and the pipeline are not yet under contract; float second conversions (EX/EXAT) are only checked for presence, not value.",
+  ref="DESIGN.md §4 C15, §9"),
 }
 
 NA_DEFAULT = "contract-decidable core not yet under contract in this tree (engine and storage layers first); no other technique substituted"
